@@ -48,6 +48,9 @@ STUB_COMPONENTS = [
     'functor bodies (log + build value digests)', 'SimCtx (context object)', 'seeded scheduler releasing one parked OS thread at a time']
 
 
+BUILD_NOTES = {}
+
+
 def log(msg):
     print(msg, flush=True)
 
@@ -82,9 +85,23 @@ def build(flavours):
                 for fn in os.listdir(os.path.join(BUILDROOT, fl)):
                     if fn.startswith('fleet_') and fn.endswith('.o'):
                         os.unlink(os.path.join(BUILDROOT, fl, fn))
-            r = subprocess.run(['make', '-C', os.path.join(ROOT, 'sim'), '-j%d' % NPROC, 'FLAVOUR=' + fl, 'REPO=' + REPO, 'BUILDROOT=' + BUILDROOT],
-                               stdout=subprocess.PIPE, stderr=subprocess.STDOUT, text=True)
+            base = ['make', '-C', os.path.join(ROOT, 'sim'), '-j%d' % NPROC, 'FLAVOUR=' + fl, 'REPO=' + REPO, 'BUILDROOT=' + BUILDROOT]
+            r = subprocess.run(base, stdout=subprocess.PIPE, stderr=subprocess.STDOUT, text=True)
             if r.returncode != 0:
+                # Does only the move-only instantiation fail to compile? Then C14 ("move-only value types work") is
+                # violated at compile time; every other TU is still linked so that the other checks keep running.
+                r2 = subprocess.run(base + ['-k'], stdout=subprocess.PIPE, stderr=subprocess.STDOUT, text=True)
+                names = [l.strip() for l in open(os.path.join(BUILDROOT, 'gen', 'fleet.list')) if l.strip()]
+                missing = [n for n in names if not os.path.exists(os.path.join(BUILDROOT, fl, n + '.o'))]
+                if missing and all(n.endswith('_mnode') for n in missing):
+                    r3 = subprocess.run(base + ['SKIP=' + ' '.join(missing)], stdout=subprocess.PIPE, stderr=subprocess.STDOUT, text=True)
+                    if r3.returncode == 0:
+                        errs = [l for l in r2.stdout.splitlines() if ' error' in l][:12]
+                        BUILD_NOTES['move_only_compile_failure'] = {'flavour': fl, 'units': missing, 'errors': errs}
+                        log('note: move-only instantiations do not compile (%s): %s' % (fl, ', '.join(missing)))
+                        with open(stamp, 'w') as f:
+                            f.write(digest)
+                        continue
                 log('BUILD FAILED (%s):\n%s' % (fl, r.stdout[-6000:]))
                 return False
             with open(stamp, 'w') as f:
@@ -204,6 +221,8 @@ def matches_known(k, prop, cls, detail, plan):
         return False
     if k.get('class') and k['class'] != cls:
         return False
+    if k.get('class_regex') and not re.search(k['class_regex'], cls or ''):
+        return False
     pat = k.get('detail_regex')
     if pat and not re.search(pat, detail or ''):
         return False
@@ -306,6 +325,16 @@ def main():
         else:
             log('crash at index %s did not reproduce on replay (rc=%s)' % (c['index'], rrc))
             rc = max(rc, 2)
+
+    if prop == 'C14' and 'move_only_compile_failure' in BUILD_NOTES:
+        n = BUILD_NOTES['move_only_compile_failure']
+        path = os.path.join(outdir, 'replay_C14_move_only_does_not_compile_%d.json' % seed)
+        with open(path, 'w') as f:
+            json.dump({'property': 'C14', 'class': 'move_only_does_not_compile', 'detail': 'the move-only value instantiation of ' + ', '.join(n['units']) +
+                       ' no longer compiles against this tree', 'compiler_errors': n['errors'],
+                       'reproduce': 'make -C sim FLAVOUR=%s REPO=%s' % (n['flavour'], REPO)}, f, indent=1)
+        violations.append((n['flavour'], {'property': 'C14', 'class': 'move_only_does_not_compile',
+                                          'detail': 'move-only value type does not compile: ' + '; '.join(n['errors'][:2]), 'replay': path, 'plan': None, 'pre_gated': True}))
 
     seen_classes = {}
     for fl, v in violations:
